@@ -1,4 +1,321 @@
-import XgiModel.C14.Algo
+/-
+  C14 — graph-reducible algorithms agree with their graph-theoretic definitions.
+  Property theorems about the model functions of `XgiModel/C14/Algo.lean` (the ones the driver runs),
+  for every well-formed network (`Net.WF`: distinct node IDs, distinct edge IDs, members duplicate-free nodes).
+  `Adj h u v` : u ≠ v share a hyperedge (link of the clique expansion); `Reach h` its reflexive-transitive closure;
+  `BAdj h` : incidence links of the node–edge bipartite graph.
+-/
+import XgiModel.C14.Lemmas
+import XgiModel.C14.LemmasConv
+import XgiModel.C14.LemmasSP
+
 namespace Xgi.C14
-theorem placeholder_partial : True := trivial
+open Xgi
+
+/-! ### `_plain_bfs` and the components -/
+
+/-- the decisive one: with the fuel the model supplies, `_plain_bfs(H, src)` is exactly the set of nodes
+    reachable from `src` in the clique expansion -/
+theorem bfs_spec {h : Net} (wf : h.WF) {src : PyId} (hs : src ∈ h.nodes) (n : PyId) :
+    n ∈ plainBfs h src ↔ Reach h src n := mem_plainBfs wf hs n
+
+/-- the result is a set of nodes (no repetitions) -/
+theorem bfs_nodup_subset {h : Net} (wf : h.WF) {src : PyId} (hs : src ∈ h.nodes) :
+    (plainBfs h src).Nodup ∧ ∀ x ∈ plainBfs h src, x ∈ h.nodes :=
+  ⟨(plainBfs_post wf hs).nodup, (plainBfs_post wf hs).sub⟩
+
+/-- any larger fuel gives the same set: the loop has really terminated -/
+theorem bfs_fuel_suffices {h : Net} (wf : h.WF) {src : PyId} (hs : src ∈ h.nodes) (extra : Nat) (n : PyId) :
+    n ∈ bfsLevels h (h.nodes.length + 1 + extra) [] [src] ↔ n ∈ plainBfs h src := by
+  rw [mem_plainBfs wf hs]
+  exact (bfsLevels_post wf _ _ _ (bfsInv_init hs) (.inr (by simp; omega))).mem_iff n
+
+/-- the components cover the node set -/
+theorem components_cover {h : Net} (wf : h.WF) : ∀ n ∈ h.nodes, ∃ c ∈ components h, n ∈ c := by
+  intro n hn
+  have inv := compInv_components wf
+  exact (inv.seenIff n).1 (inv.cover n hn)
+
+/-- they are pairwise disjoint -/
+theorem components_disjoint {h : Net} (wf : h.WF) :
+    (components h).Pairwise (fun a b => ∀ x, x ∈ a → x ∉ b) := (compInv_components wf).disj
+
+/-- each is a non-empty duplicate-free set of nodes and a full reachability class -/
+theorem components_classes {h : Net} (wf : h.WF) : ∀ c ∈ components h,
+    c ≠ [] ∧ c.Nodup ∧ (∀ x ∈ c, x ∈ h.nodes) ∧ ∀ x ∈ c, ∀ y, y ∈ c ↔ Reach h x y := by
+  intro c hc
+  obtain ⟨v, hv, e⟩ := (compInv_components wf).isBfs c hc
+  subst e
+  have post := plainBfs_post wf hv
+  refine ⟨List.ne_nil_of_mem post.hasSrc, post.nodup, post.sub, ?_⟩
+  intro x hx y
+  have rx : Reach h v x := (post.mem_iff x).1 hx
+  rw [post.mem_iff y]
+  exact ⟨fun ry => rx.symm.trans ry, fun r => rx.trans r⟩
+
+/-- reachability in the clique expansion = reachability through the node–edge bipartite graph -/
+theorem reach_iff_bipartite {h : Net} (wf : h.WF) (u v : PyId) :
+    Reach h u v ↔ Relation.ReflTransGen (BAdj h) (.node u) (.node v) :=
+  ⟨bip_of_reach, fun r => reach_of_bip_aux wf r⟩
+
+/-- the components coincide with the components of the node–edge bipartite graph restricted to nodes -/
+theorem components_eq_bipartite {h : Net} (wf : h.WF) {u : PyId} (hu : u ∈ h.nodes) (v : PyId) :
+    (∃ c ∈ components h, u ∈ c ∧ v ∈ c) ↔ Relation.ReflTransGen (BAdj h) (.node u) (.node v) := by
+  rw [← reach_iff_bipartite wf]
+  constructor
+  · rintro ⟨c, hc, huc, hvc⟩
+    exact ((components_classes wf c hc).2.2.2 u huc v).1 hvc
+  · intro r
+    obtain ⟨c, hc, huc⟩ := components_cover wf u hu
+    exact ⟨c, hc, huc, ((components_classes wf c hc).2.2.2 u huc v).2 r⟩
+
+/-- `number_connected_components` (its own loop) counts the components -/
+theorem number_eq_length (h : Net) : numberCC h = (components h).length := by
+  unfold numberCC components
+  have := countStep_foldl h h.nodes ([], [])
+  simp only [List.length_nil] at this
+  rw [this]
+
+/-- `is_connected` raises exactly on the empty node set -/
+theorem is_connected_none_iff (h : Net) : isConnected h = none ↔ h.nodes = [] := by
+  unfold isConnected; cases h.nodes <;> simp
+
+/-- `is_connected` is true iff there is a node and all nodes are mutually reachable -/
+theorem is_connected_spec {h : Net} (wf : h.WF) :
+    isConnected h = some true ↔ h.nodes ≠ [] ∧ ∀ u ∈ h.nodes, ∀ v ∈ h.nodes, Reach h u v := by
+  unfold isConnected
+  cases hn : h.nodes with
+  | nil => simp
+  | cons v t =>
+    have hv : v ∈ h.nodes := by rw [hn]; simp
+    have post := plainBfs_post wf hv
+    simp only [Option.some.injEq, beq_iff_eq, ne_eq, reduceCtorEq, not_false_eq_true, true_and]
+    rw [← hn]
+    constructor
+    · intro hlen a ha b hb
+      have hall := subset_of_nodup_length_le post.nodup post.sub (by omega)
+      exact ((post.mem_iff a).1 (hall a ha)).symm.trans ((post.mem_iff b).1 (hall b hb))
+    · intro hall
+      have h1 := length_le_of_nodup_subset post.nodup post.sub
+      have h2 := length_le_of_nodup_subset wf.1 (fun x hx => (post.mem_iff x).2 (hall v hv x hx))
+      omega
+
+/-- … iff the partition has exactly one block -/
+theorem is_connected_iff_one_component {h : Net} (wf : h.WF) :
+    isConnected h = some true ↔ (components h).length = 1 := by
+  rw [is_connected_spec wf]
+  constructor
+  · rintro ⟨hne, hall⟩
+    have hle : (components h).length ≤ 1 := by
+      have dj := components_disjoint wf
+      match hc : components h, dj with
+      | [], _ => simp
+      | [_], _ => simp
+      | a :: b :: t, dj =>
+        exfalso
+        have ha := components_classes wf a (by rw [hc]; simp)
+        have hb := components_classes wf b (by rw [hc]; simp)
+        obtain ⟨x, hx⟩ := List.exists_mem_of_ne_nil a ha.1
+        obtain ⟨y, hy⟩ := List.exists_mem_of_ne_nil b hb.1
+        have hya : y ∈ a := (ha.2.2.2 x hx y).2 (hall x (ha.2.2.1 x hx) y (hb.2.2.1 y hy))
+        exact (List.pairwise_cons.1 dj).1 b (by simp) y hya hy
+    obtain ⟨v, hv⟩ := List.exists_mem_of_ne_nil _ hne
+    obtain ⟨c, hc, _⟩ := components_cover wf v hv
+    have : 0 < (components h).length := List.length_pos_of_mem hc
+    omega
+  · intro hlen
+    match hc : components h, hlen with
+    | [c], _ =>
+      have hcl := components_classes wf c (by rw [hc]; simp)
+      have hin : ∀ n ∈ h.nodes, n ∈ c := by
+        intro n hn
+        obtain ⟨c', hc', hn'⟩ := components_cover wf n hn
+        rw [hc] at hc'; simp at hc'; subst hc'; exact hn'
+      refine ⟨?_, fun u hu v hv => (hcl.2.2.2 u (hin u hu) v).1 (hin v hv)⟩
+      intro e
+      obtain ⟨x, hx⟩ := List.exists_mem_of_ne_nil c hcl.1
+      have := hcl.2.2.1 x hx
+      rw [e] at this; simp at this
+
+/-- `largest_connected_component`: raises exactly when there is no node, otherwise returns a component of
+    maximal size -/
+theorem largest_spec {h : Net} (wf : h.WF) :
+    (largestCC h = none ↔ h.nodes = []) ∧
+    ∀ m, largestCC h = some m → m ∈ components h ∧ ∀ c ∈ components h, c.length ≤ m.length := by
+  unfold largestCC
+  constructor
+  · constructor
+    · intro hnone
+      cases hn : h.nodes with
+      | nil => rfl
+      | cons v t =>
+        exfalso
+        obtain ⟨c, hc, _⟩ := components_cover wf v (by rw [hn]; simp)
+        obtain ⟨m, e, _⟩ := largestOf_spec (components h) (List.ne_nil_of_mem hc)
+        rw [hnone] at e; cases e
+    · intro hn; unfold components; rw [hn]; rfl
+  · intro m hm
+    by_cases hne : components h = []
+    · rw [hne] at hm; simp [largestOf] at hm
+    · obtain ⟨m', e, hmem, hmax⟩ := largestOf_spec (components h) hne
+      rw [hm] at e; cases e; exact ⟨hmem, hmax⟩
+
+/-- `node_connected_component(H, n)`: raises exactly for a missing node, otherwise returns the block of the
+    partition that contains `n` (as a set) -/
+theorem node_component_spec {h : Net} (wf : h.WF) (n : PyId) :
+    (nodeCC h n = none ↔ n ∉ h.nodes) ∧
+    ∀ c, nodeCC h n = some c → ∃ c' ∈ components h, n ∈ c' ∧ ∀ x, x ∈ c ↔ x ∈ c' := by
+  unfold nodeCC
+  by_cases hn : n ∈ h.nodes
+  · simp only [hn, if_true, reduceCtorEq, not_true_eq_false, Option.some.injEq, true_and]
+    intro c e; subst e
+    obtain ⟨c', hc', hn'⟩ := components_cover wf n hn
+    refine ⟨c', hc', hn', fun x => ?_⟩
+    rw [mem_plainBfs wf hn, (components_classes wf c' hc').2.2.2 n hn' x]
+  · simp [hn]
+
+/-! ### clustering coefficient -/
+
+/-- `clustering_coefficient(H)[n]` = (#triangles at n)/(k(k−1)/2) in the pairwise projection, 0 for k < 2
+    (`triangles`: pairs of nodes adjacent to `n` and to each other; `projDeg`: number of nodes adjacent to `n`);
+    in particular the `inf` branch of the float computation is never taken -/
+theorem clustering_eq (h : Net) (n : PyId) :
+    clusteringAt h n = .val (if projDeg h n < 2 then 0
+      else (triangles h n : Rat) / ((projDeg h n : Rat) * ((projDeg h n : Rat) - 1) / 2)) :=
+  clusteringAt_eq h n
+
+/-- the table returned: one entry per node in node order; all zero when there is no edge -/
+theorem clustering_table (h : Net) :
+    (clustering h).map (·.1) = h.nodes ∧
+    ∀ n v, (n, v) ∈ clustering h → v = if h.edges.isEmpty then .val 0 else clusteringAt h n := by
+  unfold clustering
+  by_cases he : h.edges.isEmpty <;> by_cases hn : h.nodes.isEmpty <;>
+    simp [List.map_map, Function.comp_def, List.isEmpty_iff.1, *]
+
+/-! ### converters: vertex and link sets are what the definitions prescribe -/
+
+/-- `to_graph`: `u — v` is a link iff `u` and `v` are distinct nodes sharing a hyperedge (stored once, in node
+    order); the vertices are `h.nodes` by construction -/
+theorem to_graph_spec {h : Net} (wf : h.WF) (u v : PyId) :
+    ((u, v) ∈ projEdges h ∨ (v, u) ∈ projEdges h) ↔ Adj h u v := by
+  simp only [mem_projEdges]
+  constructor
+  · rintro (⟨_, a⟩ | ⟨_, a⟩)
+    · exact a
+    · exact a.symm
+  · intro a
+    rcases pair_sublist_or (a.left_mem wf) (a.right_mem wf) a.1 with s | s
+    · exact .inl ⟨s, a⟩
+    · exact .inr ⟨s, a.symm⟩
+
+/-- no link is stored twice and there are no self-loops -/
+theorem to_graph_simple {h : Net} (wf : h.WF) (u v : PyId) (huv : (u, v) ∈ projEdges h) :
+    u ≠ v ∧ (v, u) ∉ projEdges h := by
+  rw [mem_projEdges] at huv
+  refine ⟨huv.2.1, fun hvu => ?_⟩
+  rw [mem_projEdges] at hvu
+  exact not_both_orders wf.1 huv.1 hvu.1
+
+/-- `to_line_graph(H, s, weights)`: `a — b` with weight attribute `x` is a link iff `a` comes before `b` in the
+    edge list, they share at least `s` nodes, and `x` is the weight `weights` prescribes
+    (`none` | `|a ∩ b|` | `|a ∩ b| / min(|a|, |b|)`); vertices are the edge IDs with their member sets -/
+theorem to_line_graph_spec (h : Net) (s : Nat) (w : LW) (a b : PyId) (x : Option Rat) :
+    (a, b, x) ∈ lineLinks h s w ↔
+      ∃ ma mb, List.Sublist [(a, ma), (b, mb)] h.edges ∧ s ≤ (inter ma mb).length ∧ x = lineWeight w ma mb :=
+  mem_lineLinks
+
+/-- the intersection used is the set intersection, and the weights are as documented -/
+theorem line_weight_spec (ma mb : List PyId) :
+    (∀ x, x ∈ inter ma mb ↔ x ∈ ma ∧ x ∈ mb) ∧
+    lineWeight .unweighted ma mb = none ∧
+    lineWeight .absolute ma mb = some ((inter ma mb).length : Nat) ∧
+    lineWeight .normalized ma mb = some (((inter ma mb).length : Nat) / ((min ma.length mb.length : Nat) : Rat)) :=
+  ⟨fun _ => mem_inter, rfl, rfl, rfl⟩
+
+/-- `to_bipartite_graph`: vertices `0..n-1` flagged 0 and `n..n+m-1` flagged 1 -/
+theorem to_bipartite_nodes_spec (h : Net) (i b : Nat) :
+    (i, b) ∈ bipNodes h ↔ (i < h.nodes.length ∧ b = 0) ∨
+      (h.nodes.length ≤ i ∧ i < h.nodes.length + h.edges.length ∧ b = 1) := mem_bipNodes
+
+/-- … and `i — k` is a link iff `i` is the index of a node that is a member of the edge with index `k` -/
+theorem to_bipartite_edges_spec {h : Net} (wf : h.WF) (i k : Nat) :
+    (i, k) ∈ bipEdges h ↔
+      ∃ j e ms n, h.edges[j]? = some (e, ms) ∧ n ∈ ms ∧ h.nodes[i]? = some n ∧ k = h.nodes.length + j :=
+  mem_bipEdges wf
+
+/-- the index dictionaries returned with `index=True` name exactly those vertices -/
+theorem to_bipartite_index_spec (h : Net) :
+    (∀ i n, (i, n) ∈ bipNodeIndex h ↔ h.nodes[i]? = some n) ∧
+    (∀ k e, (k, e) ∈ bipEdgeIndex h ↔ ∃ j ms, h.edges[j]? = some (e, ms) ∧ k = h.nodes.length + j) :=
+  ⟨fun _ _ => mem_bipNodeIndex, fun _ _ => mem_bipEdgeIndex⟩
+
+/-- the links of the model's bipartite graph are the incidence links `BAdj` (so `components_eq_bipartite`
+    is about the graph `to_bipartite_graph` builds) -/
+theorem to_bipartite_is_incidence {h : Net} (wf : h.WF) (n e : PyId) :
+    BAdj h (.node n) (.edge e) ↔
+      ∃ i k, (i, k) ∈ bipEdges h ∧ (i, n) ∈ bipNodeIndex h ∧ (k, e) ∈ bipEdgeIndex h := by
+  simp only [BAdj, mem_bipEdges wf, mem_bipNodeIndex, mem_bipEdgeIndex]
+  constructor
+  · rintro ⟨ms, hm, hn⟩
+    obtain ⟨j, hj, hje⟩ := List.getElem_of_mem hm
+    have hnode := (wf.2.2 _ hm).2 n hn
+    have hj' : h.edges[j]? = some (e, ms) := by rw [List.getElem?_eq_getElem hj, hje]
+    exact ⟨h.nodes.idxOf n, h.nodes.length + j, ⟨j, e, ms, n, hj', hn, getElem?_idxOf_of_mem hnode, rfl⟩,
+      getElem?_idxOf_of_mem hnode, j, ms, hj', rfl⟩
+  · rintro ⟨i, k, ⟨j, e', ms, n', hj, hn', hi, hk⟩, hin, j', ms', hj', hk'⟩
+    have : j = j' := by omega
+    subst this
+    rw [hj] at hj'; simp only [Option.some.injEq, Prod.mk.injEq] at hj'
+    rw [hi] at hin; simp only [Option.some.injEq] at hin
+    obtain ⟨e1, e2⟩ := hj'
+    subst e1 e2 hin
+    exact ⟨ms, List.mem_of_getElem? hj, hn'⟩
+
+/-- `to_encapsulation_dag(H, "all" | "immediate")`: `a → b` iff `b` is a strictly smaller hyperedge, a subset of
+    `a`, sharing a node with it (i.e. non-empty), and for "immediate" exactly one node smaller -/
+theorem to_dag_spec (h : Net) (t : SubT) (ht : t ≠ .empirical) (a b : Entry) :
+    (a, b) ∈ encLinks h t ↔ Enc h a b ∧ sizeRel t a b := by
+  cases t with
+  | empirical => exact absurd rfl ht
+  | all => exact mem_encRaw
+  | immediate => exact mem_encRaw
+
+/-- "empirical" (order-independent filter): `a → b` iff `b` is encapsulated by `a`, `a` has the smallest size
+    among the hyperedges encapsulating `b`, and `b` the largest size among those encapsulated by `a` -/
+theorem to_dag_empirical_spec {h : Net} (wf : h.WF) (a b : Entry) :
+    (a, b) ∈ encLinks h .empirical ↔
+      Enc h a b ∧ (∀ p, Enc h p b → a.2.length ≤ p.2.length) ∧ (∀ c, Enc h a c → c.2.length ≤ b.2.length) := by
+  rw [mem_encLinks_empirical, mem_encRaw]
+  simp only [sizeRel, and_true]
+  constructor
+  · rintro ⟨hab, h1, h2⟩
+    refine ⟨hab, fun p hp => ?_, fun c hc => ?_⟩
+    · exact h1 (p, b) (mem_encRaw.2 ⟨hp, trivial⟩) rfl
+    · exact h2 (a, c) (mem_encRaw.2 ⟨hc, trivial⟩) rfl
+  · rintro ⟨hab, h1, h2⟩
+    refine ⟨hab, fun q hq e => ?_, fun q hq e => ?_⟩
+    · have hq' := (mem_encRaw.1 hq).1
+      have : q.2 = b := entry_eq_of_id wf hq'.2.1 hab.2.1 e
+      exact h1 q.1 (this ▸ hq')
+    · have hq' := (mem_encRaw.1 hq).1
+      have : q.1 = a := entry_eq_of_id wf hq'.1 hab.1 e
+      exact h2 q.2 (this ▸ hq')
+
+/-- the DAG handed back is on edge IDs; it has no cycle because every link goes to a strictly smaller edge -/
+theorem to_dag_ids_and_acyclic (h : Net) (t : SubT) :
+    (∀ x y, (x, y) ∈ encDag h t ↔ ∃ a b, (a, b) ∈ encLinks h t ∧ a.1 = x ∧ b.1 = y) ∧
+    ∀ a b, (a, b) ∈ encLinks h t → b.2.length < a.2.length := by
+  constructor
+  · intro x y
+    unfold encDag
+    simp only [List.mem_map, Prod.mk.injEq]
+    constructor
+    · rintro ⟨⟨a, b⟩, hm, e1, e2⟩; exact ⟨a, b, hm, e1, e2⟩
+    · rintro ⟨a, b, hm, e1, e2⟩; exact ⟨(a, b), hm, e1, e2⟩
+  · intro a b hm
+    cases t with
+    | all => exact (mem_encRaw.1 hm).1.2.2.1
+    | immediate => exact (mem_encRaw.1 hm).1.2.2.1
+    | empirical => exact (mem_encRaw.1 (mem_encLinks_empirical.1 hm).1).1.2.2.1
+
 end Xgi.C14
